@@ -175,6 +175,22 @@ func runScenario(st *stats, drv *driver, mode string, seed int64, idx int, scSee
 	sc.n = node.New("v0", s, sc.V.Address)
 	sc.a = newAccess(sc.n)
 	ts0 := int64(1_700_000_000_000_000_000) + rng.Int63n(1_000_000_000_000)
+	if rng.Intn(2) == 0 {
+		// the access node is long-lived: it may be asked before its validator holds any block (the answers are refusals
+		// or zeroes and are not compared; what matters is that nothing learnt here survives into the later answers)
+		sc.a.clock.now = ts0 - rng.Int63n(s.Interval)
+		for _, target := range []string{"/transaction/info?address=" + sc.V.Address + "&value=1&consolidation=false", "/wallet/amount?address=" + sc.V.Address} {
+			res := sc.a.call(rng.Intn(2) == 0, "GET", target, nil)
+			st.hist("pre-genesis", fmt.Sprintf("%s -> %d", strings.SplitN(target, "?", 2)[0], res.Status))
+			if res.Panic != "" {
+				sc.fail(sc.prop(), "prop", "pre-genesis/panic", "request before the first block panicked: "+res.Panic, nil)
+				return
+			}
+		}
+		pb, _ := json.Marshal(utxoBody{Address: sc.V.Address, Timestamp: ts0, TransactionId: strings.Repeat("0", 64)})
+		res := sc.a.call(false, "PUT", "/transaction/output/progress", pb)
+		st.hist("pre-genesis", fmt.Sprintf("/transaction/output/progress -> %d", res.Status))
+	}
 	sc.n.Pool.Validate(ts0)
 	if len(sc.n.AllBlocks()) != 1 {
 		sc.fail(sc.prop(), "prop", "harness/no-genesis-block", "no genesis block", nil)
